@@ -2,8 +2,10 @@ package core
 
 import (
 	"reflect"
+	"runtime"
 	"runtime/debug"
 	"sync"
+	"sync/atomic"
 	"syscall"
 	"unsafe"
 )
@@ -801,8 +803,17 @@ func mainUnlock(a uintptr, read bool) {
 //go:norace
 func taskStart(id int) {
 	S.taskG[id] = getg()
+	atomic.AddInt32(&tasksStarted, 1)
 	rawRead(S.rfd[id])
 }
+
+// tasksStarted counts the task goroutines of the current run that have recorded their identity.
+// RunTasks waits for all of them before the first task is given the processor: a goroutine that
+// the LIBRARY starts (worker goroutines of a parallel index build, say) calls the hooks too, and is
+// told apart from the running task by identity alone; while a task's identity was still unrecorded
+// such a goroutine was taken for that task, switched the processor away in its name, and the model
+// and the real locks parted company (seen as a stalled worker on a correct change: a false alarm).
+var tasksStarted int32
 
 //go:norace
 func taskDone(id int) {
@@ -860,6 +871,7 @@ type TaskPanic struct {
 // task goroutines are parked forever and the process must exit after reporting.
 func RunTasks(fns []func(), toStr func(any) string) (int, []TaskPanic) {
 	n := len(fns)
+	atomic.StoreInt32(&tasksStarted, 0)
 	var wg sync.WaitGroup
 	pan := make([]TaskPanic, n)
 	got := make([]bool, n)
@@ -879,6 +891,9 @@ func RunTasks(fns []func(), toStr func(any) string) (int, []TaskPanic) {
 			taskDone(id)
 			wg.Done()
 		}(i)
+	}
+	for atomic.LoadInt32(&tasksStarted) < int32(n) {
+		runtime.Gosched()
 	}
 	runAll()
 	if S.Verdict != VOK {
